@@ -19,6 +19,7 @@ EXPLANATION = (
     "a == b => hash(a) == hash(b), also with one side round-tripped. 'Confirmed over all paths' per partition "
     "(partition = outermost constructor) is exhaustive within the bound. Engine K: BoundaryType.__eq__ against the "
     "dataclass-generated hash over symbolic field values."
+    ' (nested) the per-term laws again for every constructor directly inside every constructor (depth 2, deep child arity <= 1, leaf pool 3).'
 )
 ASSUMPTIONS = [
     "leaf data are drawn from pools (names a/b, literals 1/True/'a'/2.5, three minima, two maxima): hashing realises "
